@@ -19,6 +19,8 @@ def _configs(tier):
                         continue
                     if tier == "quick" and layers[0] in ("Paddy", "Clay"):
                         continue
+                    if tier == "quick" and layers[0] == "SandyLoam" and layers[-1] == "SandyLoam" and bunds:
+                        continue
                     out.append((f"{'/'.join(layers)}|{','.join(map(str, dzs))}|bunds={int(bunds)}|gs={int(gs)}",
                                 {"layers": layers, "dzs": dzs, "bunds": bunds, "gs": gs}))
         if n == 2:
